@@ -119,6 +119,29 @@ EmitObserved(x, outs, j) ==
 Resync(x0, x1, outs) ==
   EmitObserved([x1 EXCEPT !.sent = x0.sent, !.outSeq = x0.outSeq, !.store = x0.store, !.lastOut = x0.lastOut, !.lastOutBefore = x0.lastOutBefore], outs, 1)
 
+\* ---- SendingTime (C05): FIX timestamp format, taken at send time.  The drivers of harness/sess run on a virtual clock that starts
+\* ---- at 2000-01-01 00:00:00 UTC: a first transmission stamped at virtual instant t (ms) carries exactly that instant.  (Traces
+\* ---- recorded in real time, "w-", are checked for the format only.)
+IsDigit(b) == b >= 48 /\ b <= 57
+D2(q, i) == (q[i] - 48) * 10 + (q[i + 1] - 48)
+D3(q, i) == (q[i] - 48) * 100 + (q[i + 1] - 48) * 10 + (q[i + 2] - 48)
+TimeFormat(q) ==
+  /\ Len(q) = 21
+  /\ \A i \in {1, 2, 3, 4, 5, 6, 7, 8, 10, 11, 13, 14, 16, 17, 19, 20, 21} : IsDigit(q[i])
+  /\ q[9] = 45 /\ q[12] = 58 /\ q[15] = 58 /\ q[18] = 46
+  /\ D2(q, 5) \in 1..12 /\ D2(q, 7) \in 1..31 /\ D2(q, 10) \in 0..23 /\ D2(q, 13) \in 0..59 /\ D2(q, 16) \in 0..60
+MsOfDay(q) == ((D2(q, 10) * 60 + D2(q, 13)) * 60 + D2(q, 16)) * 1000 + D3(q, 19)
+VirtualDate == <<50, 48, 48, 48, 48, 49, 48, 49>>
+IsWireTrace(r) == Len(r.id) >= 2 /\ SubSeq(r.id, 1, 2) = "w-"
+TimesOk(r) ==
+  \* (as for the identifiers: what is retransmitted at the peer's request is not stamped anew)
+  r.a.a # "resend" => \A j \in 1..Len(r.outs) :
+     LET o == r.outs[j]
+     IN (o.dupOf = 0 /\ o.framed) =>
+          ((TimeFormat(o.timeB) /\ ((~IsWireTrace(r) /\ o.t < 86400000) => (SubSeq(o.timeB, 1, 8) = VirtualDate /\ MsOfDay(o.timeB) = o.t)))
+             \/ Rej("C05", r, "SendingTime is not the FIX timestamp of the instant at which the message was sent",
+                    [ty |-> o.ty, seq |-> o.seq, sentAt |-> o.t, stamped |-> o.time]))
+
 \* ---- monitors that hold in every step, whatever the action (evaluated on the observation) ----
 Allowed07 == {"A", "5", "3"}
 Monitor(s0, s1, r) ==
@@ -290,6 +313,12 @@ StepResult(s0, r) ==
                [s |-> Resync(x0, x1, r.outs),
                 ok |-> Rej(tag, r, "messages sent in response differ",
                            [action |-> a.a, integ |-> a.integ, sq |-> a.sq, st |-> x0.st, expected |-> BriefSeq(exp), got |-> BriefSeq(r.outs)])
+                       \* a damaged Logon received by a session that is waiting for one is C16's business and C06's ("any other Logon ...
+                       \* is answered by a Reject that references the Logon's sequence number")
+                       /\ (IF a.a = "logon" /\ tag = "C16" /\ x0.st \in {"WL", "WLA"}
+                           THEN Rej("C06", r, "messages sent in response differ",
+                                    [action |-> a.a, integ |-> a.integ, sq |-> a.sq, st |-> x0.st, expected |-> BriefSeq(exp), got |-> BriefSeq(r.outs)])
+                           ELSE TRUE)
                        /\ (n2 \in BOOLEAN) /\ (n3 \in BOOLEAN) /\ (n4 \in BOOLEAN)]
         ELSE [s |-> x1, ok |-> (n2 \in BOOLEAN) /\ (n3 \in BOOLEAN) /\ (n4 \in BOOLEAN)]
 
@@ -308,6 +337,7 @@ Next ==
              \* (an accepting session adopts the identifiers when it handles the Logon while waiting for one)
              /\ ids' = (ids \/ (KnowsPeer(s.cfg, r.a) /\ (s.cfg.role = "initiator" \/ (~skip /\ s.st = "WL"))))
              /\ (IdsOk(r, ids') \in BOOLEAN)
+             /\ (TimesOk(r) \in BOOLEAN)
              /\ IF skip
                 THEN /\ UNCHANGED <<s, skip>>
                      /\ ((IF r.logged /\ ~appr'
